@@ -1,0 +1,44 @@
+//go:build verif
+// +build verif
+
+package elector
+
+import (
+	"k8s.io/client-go/tools/leaderelection"
+
+	proxyv1alpha1 "github.com/kubewharf/kubegateway/pkg/apis/proxy/v1alpha1"
+)
+
+// Verification hooks (build tag "verif"): thin exports only, no behaviour.
+
+// VerifNewLeaderElector builds the real leaderElector without any lease
+// configuration; Run must not be called on it. Leadership events are
+// delivered through the functions below, the way client-go's leader election
+// delivers OnStartedLeading, OnStoppedLeading and OnNewLeader.
+func VerifNewLeaderElector(identity string, shardingCount int) LeaderElector {
+	return &leaderElector{
+		identity:      identity,
+		ShardingCount: shardingCount,
+		configs:       map[int]*leaderelection.LeaderElectionConfig{},
+		leaderInfo:    map[int]proxyv1alpha1.EndpointInfo{},
+	}
+}
+
+// VerifStartLeading delivers OnStartedLeading for the shard.
+func VerifStartLeading(l LeaderElector, shardId int) { l.(*leaderElector).startLeading(shardId) }
+
+// VerifStopLeading delivers OnStoppedLeading for the shard.
+func VerifStopLeading(l LeaderElector, shardId int) { l.(*leaderElector).stopLeading(shardId) }
+
+// VerifSetLeader delivers OnNewLeader(identity) for the shard.
+func VerifSetLeader(l LeaderElector, shardId int, identity string) {
+	l.(*leaderElector).setLeader(shardId, identity)
+}
+
+// VerifDropLeaderEntry removes the table entry of a shard without any callback.
+func VerifDropLeaderEntry(l LeaderElector, shardId int) {
+	le := l.(*leaderElector)
+	le.Lock()
+	delete(le.leaderInfo, shardId)
+	le.Unlock()
+}
